@@ -428,3 +428,25 @@ Definition sprint_steps (k : sprint_kind) (acts : list (N * modifier)) : list st
 
 Definition run_sprint (E : menv) (k : sprint_kind) (acts : list (N * modifier)) (c : contact)
   : contact * list event := run_steps E (sprint_steps k acts) c.
+
+(* ---- two environments --------------------------------------------------------------------------------------------
+   As the code stands, session.ensureQueryBasedGroups evaluates queries in s.Environment() while baseAction.applyModifier
+   hands modifiers.Apply the contact-merged environment (flows.NewSessionEnvironment: the contact's time zone, language,
+   country).  [Es] is the former, [Em] the latter; run_step E = run_step2 E E. *)
+Definition run_step2 (Es Em : menv) (s : step) (c : contact) : contact * list event :=
+  match s with
+  | SApply fresh m => let '(c', evs, _) := apply Em fresh m c in (c', evs)
+  | SEnsure => ensure_query_groups Es c
+  | SRefresh c' => (c', if contact_json_eqb c c' then [] else [EContactRefreshed (erase c')])
+  | SSetInput t => (with_last_seen c (Some t), [EMsgReceived t])
+  end.
+
+Fixpoint run_steps2 (Es Em : menv) (ss : list step) (c : contact) : contact * list event :=
+  match ss with
+  | [] => (c, [])
+  | s :: rest => let '(c1, e1) := run_step2 Es Em s c in
+                 let '(c2, e2) := run_steps2 Es Em rest c1 in (c2, e1 ++ e2)
+  end.
+
+Definition run_sprint2 (Es Em : menv) (k : sprint_kind) (acts : list (N * modifier)) (c : contact)
+  : contact * list event := run_steps2 Es Em (sprint_steps k acts) c.
